@@ -149,12 +149,38 @@ static void ProduceValid(int kind, vf::BS & bs, std::string & wire, std::vector<
 static int32 CRecvFn(uint8 * buf, uint32 n, void * arg) {std::pair<Pipe *, Plan *> * io = (std::pair<Pipe *, Plan *> *) arg; const uint32 k = io->second->Chunk(muscleMin(n, (uint32)io->first->q.size())); for (uint32 i=0; i<k; i++) {buf[i] = io->first->q.front(); io->first->q.pop_front();} return (int32) k;}
 static FILE * g_devnull = NULL;
 
+// A MessageIOGateway on a packet transport (packet mode: one datagram = one framed Message).  Hostile datagrams are mixed with valid ones on ONE gateway object,
+// without any Reset(): a datagram that cannot be parsed must cost nothing but itself -- every valid datagram that follows is delivered.
+static int RunPacketModeBinary(vf::BS & bs)
+{
+   std::deque<std::string> wire; std::deque<std::string> made;
+   {PktIO * io = new PktIO(&wire, 1400); io->_out = &made; MessageIOGateway snd; snd.SetDataIO(DataIORef(io)); const uint32 n = 2+bs.u8()%5; for (uint32 i=0; i<n; i++) {(void) snd.AddOutgoingMessage(GenPayloadMsg(bs, G_BIN_UNLIMITED)); for (int r=0; (r<100)&&(snd.HasBytesToOutput()); r++) (void) snd.DoOutput();}}
+   std::deque<std::string> feed; uint32 validAfterBad = 0, bad = 0; bool sawBad = false; uint32 nmut = 0;
+   for (size_t i=0; i<made.size(); i++)
+   {
+      std::string d = made[i]; if (d.size() > 1400) continue;
+      const uint8_t k = bs.u8()%4;
+      if (k == 0) {std::vector<size_t> fs(1, 0); MutateBytes(d, fs, bs, nmut); feed.push_back(d); bad++; sawBad = true; continue;}
+      if (k == 1) {d.resize(bs.range(0, (uint32)d.size())); feed.push_back(d); bad++; sawBad = true; continue;}     // truncated
+      feed.push_back(d); if (sawBad) validAfterBad++;
+   }
+   const size_t expectAtLeast = feed.size()-bad;
+   wire = feed; PktIO * rio = new PktIO(&wire, 1400); MessageIOGateway rcv; rcv.SetDataIO(DataIORef(rio)); Sink sink;
+   for (int r=0; (r<2000)&&(wire.size()); r++) (void) rcv.DoInput(sink);     // (an error status for a bad datagram is fine; the gateway object stays in use)
+   for (int r=0; r<4; r++) (void) rcv.DoInput(sink);
+   if (sink.n < expectAtLeast) vf::Fail("packet-mode MessageIOGateway: %zu valid datagrams were fed (mixed with %u malformed ones, no Reset()), only %u Messages were delivered", expectAtLeast, bad, sink.n);
+   vf::Count("binary_packet_mode"); vf::Count("messages_delivered", sink.n); vf::Count("mutations", nmut);
+   if (validAfterBad) {vf::Count("case_valid_datagram_after_a_malformed_one"); uint64_t h = 1234; for (size_t i=0; i<feed.size(); i++) h = vf::HashStr(feed[i], h); vf::NonTrivial(h);}
+   return 0;
+}
+
 extern "C" int vf_run_case(const uint8_t * data, size_t size)
 {
    static CompleteSetupSystem * css = NULL; if (css == NULL) {css = new CompleteSetupSystem; SetConsoleLogLevel(MUSCLE_LOG_NONE); g_devnull = fopen("/dev/null", "w");}
    if (size < 4) return 0;
    vf::BS bs(data, size);
-   const int kind = bs.u8()%G_COUNT; const uint8_t srcByte = bs.u8(); const uint8_t src = srcByte%8; const uint32 amplify = ((srcByte>>3) >= 24) ? (uint32)(((srcByte>>3)-23)*3) : 1;
+   const uint8_t kb = bs.u8(); if (kb >= 240) return RunPacketModeBinary(bs);     /* (240..255 used to fold onto the first kinds) */
+   const int kind = kb%G_COUNT; const uint8_t srcByte = bs.u8(); const uint8_t src = srcByte%8; const uint32 amplify = ((srcByte>>3) >= 24) ? (uint32)(((srcByte>>3)-23)*3) : 1;
    std::string wire; std::vector<size_t> frameStarts; std::deque<std::string> packets; uint32 nmut = 0;
    const int produceKind = (kind == G_MINI_C)||(kind == G_MICRO_C) ? G_BIN_UNLIMITED : ((kind == G_WS_NOHANDSHAKE) ? G_BIN_UNLIMITED : kind);
    if (src == 0) {while(bs.left() > 40) wire.push_back((char)bs.u8()); if ((kind == G_TUNNEL)||(kind == G_MINITUNNEL)) {size_t p = 0; while(p < wire.size()) {const size_t l = 1+((uint8_t)wire[p])%120; packets.push_back(wire.substr(p, l)); p += l;}} vf::Count("source_raw_bytes");}
